@@ -12,7 +12,7 @@ ASSUMPTIONS = ["before/after comparison uses only the library's accessors and wi
 NSHARDS = {"quick": 32, "thorough": 64}
 BUDGET_S = {"quick": 200, "thorough": 1800}
 MIN_HITS = {
-    'quick': {"tx": 800, "coinbase_tx": 137, "ext_satoshis": 1073, "ext_locking": 957, "sat_2^64-1": 74, "txin": 1908, "conditional": 1217, "empty_pushdata": 466},
+    'quick': {"tx": 876, "coinbase_tx": 136, "ext_satoshis": 1148, "ext_locking": 1031, "sat_2^64-1": 72, "txin": 1909, "conditional": 1284, "empty_pushdata": 472},
     'thorough': {"tx": 115200, "coinbase_tx": 17504, "ext_satoshis": 154718, "ext_locking": 135599, "sat_2^64-1": 10357, "txin": 276223, "conditional": 181473, "empty_pushdata": 65158},
 }
 SATS = [0, 1, 2**53, 2**53 + 1, 2**63 - 1, 2**63, 2**64 - 2, 2**64 - 1, 0x0102030405060708]
@@ -21,6 +21,13 @@ SATS = [0, 1, 2**53, 2**53 + 1, 2**63 - 1, 2**63, 2**64 - 2, 2**64 - 1, 0x010203
 def cases(ctx):
     r = ctx.rnd
     t = ctx.tier == "thorough"
+    # conditionals nested to increasing depth (the document formats nest one or two levels per conditional)
+    if ctx.shard % 8 == 0:
+        for depth in (5, 10, 20, 30, 31, 32, 40, 50, 60, 61, 62, 64, 70, 100, 120, 126, 127, 128, 140):
+            for with_else in (False, True):
+                tx = gen.gen_tx(r, 1, 1, coinbase=False, script_kw={"n_tokens": 0})
+                tx["outs"][0]["script"] = nested_script(depth, with_else)
+                yield {"k": "tx", "tx": wire.tx_encode(tx).hex(), "ext": [{"locking": nested_script(min(depth, 20), with_else).hex(), "satoshis": 1}], "depth": depth}
     for i in range(10000 if t else 50):
         tx = gen.gen_tx(r, r.choice([1, 1, 2, 3, 5]), r.choice([0, 1, 2, 4]), coinbase=(r.random() < 0.15), script_kw={"minimal": r.random() < 0.4, "depth": r.choice([1, 3, 5]), "n_tokens": r.choice([0, 1, 3, 8, 20]), "push_lens": [0, 0, 1, 2, 20, 75, 76, 255, 256, 300]})
         ext = []
@@ -40,6 +47,10 @@ def cases(ctx):
             if e:
                 c["in"].update(e)
             yield c
+
+
+def nested_script(depth, with_else):
+    return b"\x63" * depth + b"\x51" + ((b"\x67\x52\x68" if with_else else b"\x68") * depth)
 
 
 def diff(before, after):
@@ -96,7 +107,12 @@ def judge(ctx, case):
             kind = "coinbase transaction" if cb else "transaction"
             if "ok" not in a:
                 why = "encoding fails" if "ser_err" in a else "decoding fails" if "err" in a else "panic"
-                ctx.viol("%s round trip of a %s: %s" % (fmt, kind, why), {"via": via, "resp": str(a)[:300]})
+                if "depth" in case and "ecursion" in str(a):
+                    lim = 61 if fmt == "JSON" else 126  # deepest nesting the document decoders of the unchanged library still read back
+                    dcls = ("<=%d" % lim) if case["depth"] <= lim else (">=%d" % (lim + 1))
+                    ctx.viol("%s round trip fails with a recursion limit for conditionals nested %s deep" % (fmt, dcls), {"via": via, "depth": case["depth"], "resp": str(a)[:200]})
+                else:
+                    ctx.viol("%s round trip of a %s: %s" % (fmt, kind, why), {"via": via, "resp": str(a)[:300]})
                 continue
             d = diff(before, a["ok"])
             if d:
